@@ -7,7 +7,7 @@
     * `reextent_noop`         reextent to the current extensions: same block, same layout, same heap — storage, iterators, views stay valid
     * `reextent_moved_law`    `std::move(A).reextent(x)`: extensions `x`, every element value-initialised (indeterminate for a trivial `T`)
     * `reextent_law`, `reextent_law_values`  the law for the lvalue overloads: common part kept, the rest = fill / value-initialised
-    * `clear_empty`, `reshape_flat`, `assign_exact`, `assign_range_exact`
+    * `clear_empty`, `reshape_flat`, `assign_exact`, `assign_range_exact`, `assign_list_exact`
 -/
 import MultiProofs.OwnStep
 import MultiProofs.OwnObs
@@ -183,6 +183,24 @@ theorem assign_range_exact (cfg : Cfg α) (p : Pool α) (hi : Inv p) (k : Nat) (
   intro h self hcond
   unfold assignRange
   simp only [hcond, if_false]
+
+/-- **`assign(first,last)` and assignment from an initializer list produce exactly the requested contents**, over any prior state, in
+    place (same rows and inner extensions: block and index bases kept) or not; `A = {}` clears; no other array changes -/
+theorem assign_list_exact (cfg : Cfg α) (p : Pool α) (hi : Inv p) (k : Nat) (a : Arr) (ha : p.arrs k = some a) (hD : a.dim ≠ 0)
+    (count : Int) (inner : List Ext) (vals : List α) (hes : ExtsOK (rangeExts count inner))
+    (hlen : (vals.length : Int) = nElems (rangeExts count inner)) :
+    let p1 := step cfg p (.assignr k count inner vals)
+    let p2 := step cfg p (.ilassign k count inner vals)
+    Inv p1 ∧ Inv p2 ∧ (∀ j, j ≠ k → absPool p1 j = absPool p j ∧ absPool p2 j = absPool p j) ∧
+    absPool p1 k = some (listVal (absArr p.heap a) count inner vals) ∧ (listVal (absArr p.heap a) count inner vals).elems = vals.map some ∧
+    absPool p2 k = some (if count = 0 then emptyVal a.dim else listVal (absArr p.heap a) count inner vals) := by
+  intro p1 p2
+  obtain ⟨i1, a1⟩ := step_refines cfg p hi (.assignr k count inner vals) ⟨a, ha, hD, hes, hlen⟩
+  obtain ⟨i2, a2⟩ := step_refines cfg p hi (.ilassign k count inner vals) ⟨a, ha, hD, hes, hlen⟩
+  refine ⟨i1, i2, fun j hj => ⟨by rw [a1]; exact upd_other _ _ hj, by rw [a2]; exact upd_other _ _ hj⟩, ?_, ?_, ?_⟩
+  · rw [a1]; simp [specStep, absPool_some ha]
+  · unfold listVal; split <;> rfl
+  · rw [a2]; simp [specStep, absPool_some ha, absArr, exts_length]
 
 /-! ### non-vacuity -/
 
